@@ -25,6 +25,10 @@ CHECKS = {
             "Fault injection on the stored bytes (bit flips, byte substitutions, swaps, 1-8 per stream, aimed inside block payloads by an independent parser of the container format) and inside the pipeline (a byte of a task-private buffer changed between hashing and coding, or between inverse transform and verification, via a hook), decoder jobs 1-8 under the scheduler, 0-5 further Read calls after the first error. Oracle: everything ever delivered is a prefix of the original; EOF only with the complete data; pipeline damage must be reported.",
             "A 32/64-bit checksum collision (probability 2^-32 per damaged block) is ignored. The container parser is validated against the writer on every case (probe parser.agrees).",
             SIM + "fault injection on stored bytes and in-pipeline buffers; prefix oracle over the whole call history"),
+    "C03": ("exploration",
+            "Structure-aware fault injection on stored bytes: mutations aimed at codec headers and tables (entropy NONE so transform headers are in the clear, transform NONE so entropy tables are at known offsets, full chains), forged container fields (length width/value, mode byte, announced size, early end marker), forged headers with recomputed checksum (block size, codec ids, output size, checksum width, version), truncation plus random tail, random bodies, splices, and blocks above 4 MiB with forged BWT primary indexes (helper goroutines). Decoder jobs 1-8 under the scheduler, further Reads after the first error. Oracle: no panic escapes, no deadlock (exact), step budget, and the worker process neither dies nor burns more than 60 s of CPU on one case (death/stall is attributed to the case in flight by start markers and confirmed by replaying it alone in a fresh process).",
+            "Hangs inside codec loops have no yield point: they are bounded by a CPU-time watchdog (60 s per case, 300 s on confirmation; fault-free cases take milliseconds). Forged block sizes are capped at 4 MiB (quick) / 64 MiB (thorough) so that legitimate allocation of declared sizes is not mistaken for a fault. A forged block length can legitimately make the decoder allocate up to 2 GiB (observation in DESIGN.md).",
+            SIM + "structure-aware corruption of stored streams; process-level oracle (death, CPU stall) with per-case attribution and isolated replay"),
     "C04": ("exploration",
             "Each case fixes (data, codecs, block size, checksum, hint) and compares the sink bytes of 2-3 simulated runs (jobs 1-64, any Write partition, any bitstream buffer size, any schedule policy incl. starvation) with a jobs=1 single-Write reference run. Sampling over schedules: the evidence reports distinct schedule signatures.",
             "Interleavings are explored at hook granularity; the reference run is the same code with jobs=1.",
@@ -49,6 +53,10 @@ CHECKS = {
             "Truncation = the simulated source ends after p bytes. For small streams (<= 4 KiB, a quarter of the cases) EVERY cut position 0..len-1 is run; otherwise all block boundaries +-2 bytes, header boundary, first 30 and last 17 positions and random ones (parser-aimed). Decoder jobs 1-8 under the scheduler. Oracle: the read loop ends with a non-EOF error and what was delivered is a prefix of the original.",
             "Exhaustive over cut positions for the small streams, sampled otherwise; full reads are served so that C06's dimension cannot interfere.",
             SIM + "fault enumeration over truncation points"),
+    "C10": ("exploration",
+            "Mixed-version simulation: the writer is a frozen snapshot of the pinned tree (harness/ref, real code under another import path), the reader is the current tree under the scheduler (jobs, schedule, Read sizes, buffer size from the tape). A pair is kept only if the reference encoder+decoder round-trip it (the property's precondition); oracle: current decode == reference decode. Plus a committed golden corpus of 46 streams produced by the reference (every transform, every entropy codec, checksum 0/32/64, header and headerless, chains, a 256 KiB-block BWT) with the SHA-256 of the originals: the first 46 cases of every run.",
+            "The snapshot is the pinned commit 76efab5 (before any hook or fix). Reverse direction (current writer, reference reader) is not part of the property and is not judged.",
+            SIM + "differential decoding across two code histories (pinned reference snapshot vs current tree) + fixed golden corpus"),
     "C11": ("exploration",
             "Streams of 0-12 blocks; for each, EVERY range 1 <= from <= to <= blocks+3 is decoded under the scheduler with drawn decoder jobs 1-8 and Read sizes; oracle: slice model D[(from-1)B : min((to-1)B, |D|)] then EOF. In a third of the cases blocks outside the range are damaged: a skipped block is never decoded, so the result must not change.",
             "Ranges exhaustive per sampled stream; streams, jobs and schedules sampled.",
